@@ -138,6 +138,13 @@ def check_case(ctx, case, record=True):
                 # the returned physical plan must be a different object graph
                 if res[0] is w.plan or res[0].graph is w.plan.graph:
                     ctx.violation(case, tag + "dry run returned the caller's own Plan/graph object")
+                if act["cfg"].get("rseed", 0) % 3 == 0:
+                    # the (plan, node) pair a dry run returns can be handed to render as it is
+                    try:
+                        uberjob.render(res, format="svg")
+                    except Exception:
+                        if record:  # not a modification: outside this statement, but visible in the evidence
+                            ctx.count("render_of_dry_run_result_raised")
         elif k == "render":
             kw = {"format": "svg"}
             if act["registry"]:
@@ -148,8 +155,9 @@ def check_case(ctx, case, record=True):
                 kw["predicate"] = lambda u, d: type(u).__name__ != "Literal"
             try:
                 uberjob.render(w.plan, **kw)
-            except Exception as e:
-                ctx.violation(case, tag + f"render raised {e!r}")
+            except Exception:
+                if record:  # whether render succeeds is outside this statement (it must not modify anything)
+                    ctx.count("render_raised")
         elif k == "copy_mut":
             p2, r2 = w.plan.copy(), w.registry.copy()
             mutate(p2, r2)
@@ -209,6 +217,27 @@ def check_case(ctx, case, record=True):
         d = diff_snap(before, after)
         if d:
             ctx.violation(case, tag + f"the caller's Plan/Registry was modified: {d}")
+        v = registry_views(w.registry) or registry_views(w.registry.copy())
+        if v:
+            ctx.violation(case, tag + f"the Registry's read-only views disagree with its entries: {v}")
+
+
+def registry_views(r):
+    """keys / values / items / iteration / len / in / [] / get of a Registry (or its copy) describe the same entries."""
+    entries = [(n, rv.value_store) for n, rv in r.mapping.items()]
+    nodes = [n for n, _ in entries]
+    if list(r.keys()) != nodes or list(r) != nodes or len(r) != len(nodes):
+        return f"keys/iter/len: {list(r.keys())!r:.120} / {len(r)} vs {len(nodes)} entries"
+    vals = r.values()
+    if len(vals) != len(entries) or any(a is not b for a, (_, b) in zip(vals, entries)):
+        return f"values(): {vals!r:.120}"
+    items = r.items()
+    if len(items) != len(entries) or any(a[0] is not b[0] or a[1] is not b[1] for a, b in zip(items, entries)):
+        return f"items(): {items!r:.120}"
+    for n, st_ in entries:
+        if n not in r or r[n] is not st_ or r.get(n) is not st_:
+            return f"in / [] / get for {n!r:.80}"
+    return None
 
 
 def mutate(plan, registry):
